@@ -37,7 +37,7 @@ ENGINES += [
 ]
 _H = "A(P) from E1 (z3 trusted on pinned ground queries); steered models are re-checked against the implementation's own assertion stack; bounds in DESIGN.md section 8"
 CHECKS["C07"] = {"engine": "E2 controlled solver", "technique": "stateless exploration of all model-choice sequences and interruption points of the real optimisation loop under a controlled solver; E1 enumeration for the optimum",
-    "text": "for 33+ objective programs (every built-in objective, user-indicator objectives over every indicator kind, same-direction pairs incl. weight 0) the achievable objective values come from an exhaustive E1 box exploration; the real incremental loop is then executed for EVERY strictly improving chain of models, for every max_iter, with `unknown` injected at every check index, one slow check at every index (virtual clock) and growing costs; z3.Optimize and weighted sums are compared with best*",
+    "text": "for 33+ objective programs (every built-in objective, user-indicator objectives over every indicator kind, same-direction pairs incl. weight 0) the achievable objective values come from an exhaustive E1 box exploration; the real incremental loop is then executed for EVERY strictly improving chain of models, for every max_iter, with `unknown` injected at every check index, one slow check at every index (virtual clock) and growing costs, with the solver object created before the declarations, with weights assigned after construction; z3.Optimize and weighted sums are compared with best* (z3.Optimize is not judged for optimality on non-linear cost objectives: recorded finding)",
     "note": _H}
 CHECKS["C08"] = {"engine": "E1 schedule-space explorer", "technique": _T + "; the indicator unknown is pinned to every value of a window around the reference value",
     "text": "for every admitted leaf of ~220 (quick) indicator programs the set of admitted indicator values must be non-empty and inside the reference tolerance set (determined and equal to the definition), the reported value too; targets/bounds judged as constraints in both directions",
@@ -55,19 +55,19 @@ CHECKS["C12"] = {"engine": "E3 history explorer", "technique": "enumeration of c
     "text": "on 15+ bounded programs (incl. debug=True): solve + find_another_solution until failure under EVERY order in which the schedules can be delivered (<=4 timings) or every run with <=1-2 order deviations, plus all sequences of length <=3-4 over {another, another_for(v)}; distinct, valid, exhaustive, excluded value honoured, no exception",
     "note": _H}
 CHECKS["C13"] = {"engine": "E3 history explorer", "technique": "enumeration of all call sequences up to depth 4-5 on one real SchedulingSolver vs. a protocol model over A(P)",
-    "text": "all sequences over {initialize, export, solve, another, another_for(v)} on plain / infeasible / single- and two-objective programs under both optimisers and max_iter settings; every observation must be allowed by the protocol model (optimal when uninterrupted), the problem object must stay untouched and usable by a second solver",
+    "text": "all sequences over {initialize, export, solve, another, another_for(v)} on plain / infeasible / single- and two-objective programs under both optimisers and max_iter settings; every observation must be allowed by the protocol model (optimal when uninterrupted), the problem object must stay untouched and usable by a second solver; plus every history of 2-3 calls with ONE side activity (read-only report of the solver, another problem declared) inserted at every inner position; solvers built for a logic",
     "note": _H}
 CHECKS["C14"] = {"engine": "E1 schedule-space explorer", "technique": "explicit-state enumeration of the box of every declaration-order permutation / renaming; set equality; earlier-activity sequences vs a fresh interpreter",
-    "text": "all permutations inside each declaration stage (capped product, cap reported) and a family of collision-free renamings: admitted set, verdict and optimum (lexicographic vector under lex) must be identical; every sequence of <=2 earlier activities from a menu of 9 in the same interpreter must leave the target's admitted set, verdict and optimum equal to a fresh interpreter's",
+    "text": "all permutations inside each declaration stage (capped product, cap reported) and a family of collision-free renamings: admitted set, verdict and optimum (lexicographic vector under lex) must be identical; every sequence of <=2 earlier activities from a menu of 9 in the same interpreter must leave the target's admitted set, verdict and optimum equal to a fresh interpreter's (an exception of solve() is an outcome like the others)",
     "note": _N}
 CHECKS["C15"] = {"engine": "E1 schedule-space explorer", "technique": "full enumeration of the 1600-point configuration product per program against E1 reference sets",
     "text": "optimizer x priority x parallel x random_values x debug x logics (None + 24) on 13 (quick) programs incl. free-horizon ones: every returned schedule is a member of A(P) with a matching objective value; definite verdicts and optima of LIA-covering logics agree with A(P) and best*",
     "note": _H + "; z3-internal threads (parallel=True) are not controlled"}
 CHECKS["C16"] = {"engine": "E4/E5 artefact and constructor grids", "technique": "every reported solution of every admitted leaf exported and re-parsed; SMT-LIB export compared with the live solver over the whole E1 box",
-    "text": "JSON / DataFrame / CSV / Excel exports of ~700 solutions (incl. compact JSON) re-read with json, csv, zipfile+XML and compared field by field; 110+ SMT-LIB exports parsed and explored over the whole box (same admitted set as the live solver, both optimisers); JSON round trips of definitions",
+    "text": "JSON / DataFrame / CSV / Excel exports of ~700 solutions (incl. compact JSON) re-read with json, csv, zipfile+XML and compared field by field; 110+ SMT-LIB exports parsed and explored over the whole box (same admitted set as the live solver, both optimisers); also from debug-mode solvers, the exploration of an export being cut off at four times the cost of the live one; JSON round trips of definitions; unscheduled tasks keep their row and have no bar in the Excel task view",
     "note": "the solution object is the reference (C11 covers it); z3's SMT-LIB parser trusted"}
 CHECKS["C17"] = {"engine": "E4/E5 artefact and constructor grids", "technique": "every distinct reported solution of every admitted leaf rendered (Agg) in both modes; matplotlib artists inspected",
-    "text": "bars (PolyCollection paths), labels (Text), tick labels and buffer lines (Line2D) of ~1700 (quick) solutions x 2 modes compared with the reported assignments, scheduled tasks, zero-length markers and buffer step functions",
+    "text": "bars (PolyCollection paths), labels (Text), tick labels and buffer lines (Line2D) of ~1700 (quick) solutions x 2 modes compared with the reported assignments, scheduled tasks, zero-length markers and buffer step functions; every rendering is done twice with the first figures left open and must produce one chart (two with buffers)",
     "note": "matplotlib artist geometry is taken as what is drawn; the solution object is the reference"}
 CHECKS["C18"] = {"engine": "E4/E5 artefact and constructor grids", "technique": "full boundary-value product per constructor, each tuple built through the public API in a fresh problem",
     "text": "~800 tuples: every listed ill-formed case must raise at creation, every documented legal value (incl. boundaries) must be accepted and the problem must still initialise; every rejected single-element case is followed in the same problem by its well-formed variant under the same name (a rejected attempt leaves nothing behind); every program of the other checks' alphabets (~7000 in the quick tier) must build and initialise",
